@@ -253,8 +253,9 @@ def abstract_encoders():
         Case('before-epoch-or-too-late', when=lambda c: is_time(c.value) and neg(in_range(secs(c), 0, 2 ** 64 - 1)),
              raises=struct.error),
         Case('not-a-time', when=lambda c: not is_time(c.value), raises=TypeError),
-    ], trusted=True, name=ENC + '.timestamp(abstract)',
-        doc='abstract view: dt_seconds is the whole-second instant with naive values read as UTC (C15 verifies the function)'))
+    ], name=ENC + '.timestamp',
+        doc='C15/C04/C10: 8 octets, whole seconds since the epoch; naive datetimes and struct_time read as UTC, aware ones as '
+            'their absolute instant; no dependence on the host time zone (LOCAL_OFFSET does not occur in the result)'))
 
     import decimal as _dm
     is_dec = lambda v: (isinstance(v, SOpaque) and v.kind == 'decimal') or isinstance(v, _dm.Decimal)
@@ -264,7 +265,7 @@ def abstract_encoders():
              returns=lambda c: wire.decimal_bytes(c.st, c.value)),
         Case('decimal-refused', when=lambda c: is_dec(c.value) and neg(wire.decimal_ok(c.value)), raises=RAISES_DEC),
         Case('not-a-decimal', when=lambda c: not is_dec(c.value), raises=TypeError),
-    ], name=ENC + '.decimal',
+    ], name=ENC + '.decimal', bounded_only=True,
         doc='abstract view (scale octet + signed 32-bit unscaled value; the function itself goes through str(value): bounded stand-in)'))
     return out
 
